@@ -2,6 +2,7 @@ package ref
 
 import (
 	"math"
+	"math/big"
 	"sort"
 	"strconv"
 	"strings"
@@ -238,11 +239,27 @@ func (ev *evaluator) call(name string, args []interface{}) (interface{}, error) 
 		for _, e := range arr {
 			s += e.(float64)
 		}
+		if math.IsInf(s, 0) {
+			// the running total left the float64 range; the mean of finite numbers never does (a result is a JSON number, C16)
+			if ex := exactTotal(arr); ex != nil {
+				m, _ := ex.Quo(ex, new(big.Rat).SetInt64(int64(len(arr)))).Float64()
+				return m, nil
+			}
+		}
 		return s / float64(len(arr)), nil
 	case "sum":
 		s := 0.0
 		for _, e := range args[0].([]interface{}) {
 			s += e.(float64)
+		}
+		if math.IsInf(s, 0) {
+			// a total that is finite is that number however the partial sums went; one that is not is no JSON number, and the
+			// specification has no value for it: an error, never an infinity (C16)
+			if ex := exactTotal(args[0].([]interface{})); ex != nil {
+				if s, _ = ex.Float64(); math.IsInf(s, 0) {
+					return nil, ev.fail(ErrValue)
+				}
+			}
 		}
 		return s, nil
 	case "contains":
@@ -527,4 +544,17 @@ func cmpKey(a, b interface{}) (int, error) {
 		return 0, dc("ordering to_string text")
 	}
 	panic("model: cmpKey")
+}
+
+// exactTotal is the exact sum of finite numbers (nil when one of them is not finite: documents that are not JSON data).
+func exactTotal(arr []interface{}) *big.Rat {
+	t := new(big.Rat)
+	for _, e := range arr {
+		r := new(big.Rat).SetFloat64(e.(float64))
+		if r == nil {
+			return nil
+		}
+		t.Add(t, r)
+	}
+	return t
 }
